@@ -205,7 +205,8 @@ def gen_case(rng: random.Random, pid: str, uid: str) -> dict:
             else:
                 acts.append(None)
         script[nm] = acts
-    if rng.random() < 0.03 and len(names) >= 2:
+    marathon = rng.random() < 0.004 and not auto
+    if (marathon or rng.random() < 0.03) and len(names) >= 2:
         # a state that hands over with next_state_now() EVERY time it runs, for as long as the case runs (the scripts repeat)
         a_, b_ = rng.sample(names, 2)
         script[a_] = [["now", b_, False]] * len(script[a_])
@@ -226,9 +227,13 @@ def gen_case(rng: random.Random, pid: str, uid: str) -> dict:
     for s in states:
         if s["kind"] == "timed" and rng.random() < 0.08:
             pre_nt[s["name"]] = gen_dur() if not s["dur_int"] else rng.choice([0, 1000000, 2000000])
+    if n > 32:
+        # a big machine: states far down the list re-enter themselves with next_state() now and then
+        for nm in names[30:]:
+            script[nm] = [(["next", nm, False] if rng.random() < 0.3 else a) for a in script[nm]]
     verbose = rng.choice([None, None, True, False])
     ds_state = rng.choice([None, "auto", "auto", "teleop", "disabled"]) if auto else None
-    return {"uid": uid, "pid": pid, "verbose": verbose, "ds": ds_state, "auto": auto, "grid": grid, "period": period, "classes": classes,
+    return {"uid": uid, "pid": pid, "marathon": marathon, "verbose": verbose, "ds": ds_state, "auto": auto, "grid": grid, "period": period, "classes": classes,
             "final": classes[-1]["name"], "script": script, "pre_nt": pre_nt, "sibling": (not auto) and rng.random() < 0.25,
             "instantiate_bases": len(classes) > 1 and rng.random() < 0.5,
             "always_disable": always_disable,
@@ -886,6 +891,9 @@ class Driver:
         timed = [n for n, s in self.eff.items() if s["kind"] == "timed"]
         pid = self.pid
         total = rng.choice([30, 60, 120, 250, 400]) if rng.random() > 0.004 else 3000
+        if case.get("marathon"):
+            total = 3000            # thousands of iterations of one continuously engaged run
+            self.ev("marathon-run")
         late = rng.random() < 0.3
         if late:
             self.ev("clock-moves-between-engage-and-execute")
@@ -899,6 +907,8 @@ class Driver:
             mode = rng.choices(["cont", "idle", "rand", "burst"],
                                {"C02": [6, 1, 1, 1], "C04": [3, 2, 3, 2], "C01": [2, 2, 3, 3]}.get(pid, [3, 1, 2, 2]))[0]
             length = rng.choice([3, 8, 20, 60, 150]) if mode == "cont" else rng.choice([1, 2, 5, 12])
+            if case.get("marathon") and rng.random() < 0.8:
+                mode, length = "cont", 2500          # engaged in every iteration for thousands of iterations
             clock = rng.choices(["fixed", "jitter", "random", "land"], [4, 2, 2, 3 if pid == "C02" else 1])[0]
             p_eng = rng.random()
             burst_on = True
@@ -920,6 +930,7 @@ class Driver:
                 if rng.random() < 0.0015:
                     adv = 2 ** 32 + (GRID * 3 if grid else 12345)          # the robot sits for 72 minutes
                     self.ev("pause-of-72-minutes")
+                    clock = "land"      # ... and from then on the loop keeps landing on / a few us around the expiry instants
                 if (clock == "land" or rng.random() < 0.08):
                     mm = self.model.members[0]
                     if mm.running and mm.cur is not None and mm.cur.has_run and mm.cur.d is not None:
